@@ -327,6 +327,78 @@ Section Tree.
       - eapply reach_step; [apply IH; exact HQ|exact Hn|]. apply HQ. eapply reach_step; eassumption.
     Qed.
 
+    (* a set of path cells with a single end cannot exist: the component of the end would have an odd degree sum *)
+    Section OneEnd.
+      Variables (s : nat) (P : nat -> bool).
+      Hypothesis Hs : W s = true.
+      Hypothesis HPW : forall c, P c = true -> W c = true.
+      Hypothesis HPs : P s = true.
+      Hypothesis Hds : nmt_deg P s = 1.
+      Hypothesis Hdm : forall c, P c = true -> c <> s -> nmt_deg P c = 2.
+
+      Lemma nmt_one_end : False.
+      Proof.
+        pose proof (HWn s Hs) as Hrn.
+        set (Q := fun v => mem v (component g P alle s)).
+        assert (Qspec : forall v, Q v = true <-> reach g P alle s v).
+        { intros v. unfold Q. rewrite mem_In. apply component_spec; assumption. }
+        assert (QP : forall v, Q v = true -> P v = true).
+        { intros v Hv. apply Qspec in Hv. exact (ReachProofs.reach_vok_end _ _ _ _ _ Hv). }
+        assert (Hin : forall v, reach g P alle s v -> reach g Q alle s v).
+        { intros v H. apply (nmt_reach_into P Q s v H). intros x Hx. apply Qspec. exact Hx. }
+        assert (HcQ : connected g Q).
+        { intros u v _ _ Hu Hv. apply Qspec in Hu. apply Qspec in Hv.
+          eapply ReachProofs.reach_trans; [apply ReachProofs.reach_sym; apply Hin; exact Hu|apply Hin; exact Hv]. }
+        assert (HbQ : induced_bridges g Q).
+        { intros e a b Hn Qa Qb Hab Hre. apply (Hbr e a b Hn (HPW a (QP a Qa)) (HPW b (QP b Qb)) Hab).
+          eapply AGF.reach_mono; [| |exact Hre]; [intros x Hx; apply HPW, QP, Hx|auto]. }
+        assert (Htree : tree g Q) by (apply (tree_iff_bridges g Q Hwf); split; assumption).
+        destruct Htree as [_ Hcount].
+        assert (Hpos : 1 <= n_active g Q).
+        { unfold n_active. assert (Hi : In s (filter Q (seq 0 (nv g)))).
+          { apply filter_In. split; [apply in_seq; lia|apply Qspec; apply reach_refl; exact HPs]. }
+          destruct (filter Q (seq 0 (nv g))); [destruct Hi|simpl; lia]. }
+        assert (Hedges : induced_edges g Q + 1 = n_active g Q) by (destruct Hcount; [lia|assumption]).
+        pose proof (handshake g (fun i j => Avc.b2z (Q i && Q j)) Hwf) as HS.
+        cbv beta in HS.
+        assert (HR : zsum (map (fun ab : nat * nat => (Avc.b2z (Q (fst ab) && Q (snd ab)) + Avc.b2z (Q (snd ab) && Q (fst ab)))%Z) (edges g))
+                     = (2 * Z.of_nat (induced_edges g Q))%Z).
+        { rewrite (zsum_map_ext_in _ (fun ab : nat * nat => (Avc.b2z (Q (fst ab) && Q (snd ab)) + Avc.b2z (Q (fst ab) && Q (snd ab)))%Z))
+            by (intros ab _; rewrite (andb_comm (Q (snd ab))); reflexivity).
+          rewrite zsum_map_add, (zsum_b2z_count (fun ab : nat * nat => Q (fst ab) && Q (snd ab))).
+          rewrite (induced_edges_loop_free g Q Hlf). lia. }
+        assert (HL : forall i, In i (seq 0 (nv g)) ->
+                  (zsum (map (fun jk : nat * nat => Avc.b2z (Q i && Q (fst jk))) (incident g i)) +
+                   (if Nat.eqb s i then Avc.b2z (Q i) else 0)
+                   = Avc.b2z (Q i) + Avc.b2z (Q i))%Z).
+        { intros i _. destruct (Q i) eqn:Qi.
+          - cbn [andb]. rewrite (zsum_b2z_count (fun jk : nat * nat => Q (fst jk))).
+            assert (Hc : length (filter (fun jk : nat * nat => Q (fst jk)) (incident g i)) = nmt_deg P i).
+            { unfold nmt_deg, nbrs, count.
+              assert (Hf : filter (fun '(_, k) => alle k) (incident g i) = incident g i).
+              { clear. induction (incident g i) as [|[a k] rest IH]; [reflexivity|]. simpl. rewrite IH. reflexivity. }
+              rewrite Hf.
+              transitivity (length (filter Q (map fst (incident g i)))).
+              - clear. induction (incident g i) as [|[a k] rest IH]; [reflexivity|]. simpl. destruct (Q a); simpl; rewrite IH; reflexivity.
+              - f_equal. apply filter_ext_in. intros u Hu.
+                assert (Hadj : In u (nbrs g alle i)) by (unfold nbrs; rewrite Hf; exact Hu).
+                destruct (P u) eqn:Pu.
+                + apply Qspec. eapply reach_step; [apply Qspec; exact Qi|exact Hadj|exact Pu].
+                + destruct (Q u) eqn:Qu; [apply QP in Qu; congruence|reflexivity]. }
+            rewrite Hc. pose proof (QP i Qi) as Pi. simpl Avc.b2z.
+            destruct (Nat.eqb_spec s i) as [<-|Hsi].
+            + rewrite Hds. reflexivity.
+            + rewrite (Hdm i Pi) by congruence. reflexivity.
+          - cbn [andb]. rewrite zsum_map_zero by (intros; reflexivity). destruct (Nat.eqb s i); reflexivity. }
+        pose proof (zsum_map_ext_in _ _ _ HL) as HL'. rewrite !zsum_map_add in HL'.
+        rewrite (zsum_pick s (fun i => Avc.b2z (Q i))) in HL' by (try apply seq_NoDup; apply in_seq; lia).
+        rewrite (zsum_b2z_count Q) in HL'. fold (n_active g Q) in HL'.
+        rewrite HS, HR in HL'.
+        assert (H2 : (Avc.b2z (Q s) = 2)%Z) by lia.
+        destruct (Q s); cbn [Avc.b2z] in H2; lia.
+      Qed.
+    End OneEnd.
+
     Section Sound.
       Variables (s t : nat) (P : nat -> bool).
       Hypothesis Hs : W s = true.
